@@ -698,3 +698,102 @@ def h_traj_names(case):
     finally:
         shutil.rmtree(tmp, ignore_errors=True)
     return {"bad": bad[:2], "counts": counts, "key": chash(names), "nontrivial": True, "sample": {"names": names}}
+
+
+# ---------------------------------------------------------------------------------------------------------------
+# C19 / C04 / C13: objects built with default arguments are independent of one another
+
+def h_default_isolation(case):
+    """Two objects built with the default units system (no units given) do not share it: editing the units system of one
+    in place (`obj.units_system.space = "nm"`, `obj.units_system["quantity"] = "mol"`) changes neither an object built
+    before nor one built afterwards - their bare numbers keep meaning (µm, s, molecule).  Same for the other mutable
+    defaults (environment lists, empty override dictionaries)."""
+    use_repo()
+    import strengths as st
+    sd, idx = case["seed"], case["idx"]
+    r = gen.rng_for(sd, "Hdefault", idx)
+    bad, counts = [], {}
+    which = case.get("which") or r.choice(["reaction", "species", "network", "grid", "graphnode", "system", "script"])
+    eq = r.choice(["A + B -> C", "2 A -> B", "A -> ", " -> A", "A -> B"])
+    kf, kr, D, dens, vol = r.uniform(0.1, 5), r.uniform(0.1, 5), r.uniform(0.1, 5), r.uniform(1, 50), r.uniform(0.5, 3)
+
+    def build():
+        if which == "reaction":
+            return st.Reaction(eq, kf=kf, kr=kr)
+        if which == "species":
+            return st.Species("A", D=D, density=dens)
+        if which == "network":
+            return st.RDNetwork([st.Species("A", D=D, density=dens), st.Species("B"), st.Species("C")], [st.Reaction(eq, kf=kf, kr=kr)])
+        if which == "grid":
+            return st.RDGridSpace(w=2, h=1, d=1, cell_vol=vol)
+        if which == "graphnode":
+            return st.RDGraphSpaceNode(volume=vol)
+        net = st.RDNetwork([st.Species("A", D=D, density=dens), st.Species("B"), st.Species("C")], [st.Reaction(eq, kf=kf, kr=kr)])
+        system = st.RDSystem(net, st.RDGridSpace(w=2, h=1, d=1, cell_vol=vol))
+        if which == "system":
+            return system
+        return st.RDScript(system, t_sample=[0, 1.5], time_step=0.25)
+
+    def meaning(o):
+        """physical content of the bare numbers the object was given, in SI-with-molecules"""
+        out = {}
+
+        def q(name, uv):
+            u = uv.units
+            out[name] = float(uv.value) * float(si.scale(si.sys_of(u.sys), si.dim_of(u.dim)))
+        if which == "reaction":
+            q("kf", o.kf), q("kr", o.kr)
+        elif which == "species":
+            q("D", o.D), q("density", o.density)
+        elif which == "network":
+            q("D", o.species[0].D), q("density", o.species[0].density), q("kf", o.reactions[0].kf), q("kr", o.reactions[0].kr)
+        elif which == "grid":
+            q("cell_vol", o.cell_vol)
+        elif which == "graphnode":
+            q("volume", o.volume)
+        elif which == "system":
+            out["state0"] = float(o.state.value[0]) * float(si.QUANTITY[si.sys_of(o.state.units.sys)[2]])
+            q("D", o.network.species[0].D)
+        else:
+            q("time_step", o.time_step), q("t_max", o.t_max)
+            out["t_sample_last"] = float(o.t_sample.value[-1]) * float(si.TIME[si.sys_of(o.t_sample.units.sys)[1]])
+        out["units_system"] = si.sys_of(o.units_system)
+        return out
+    first = build()
+    want = meaning(first)
+    victim = build()
+    edits = r.sample([("space", "nm"), ("time", "ms"), ("quantity", "mol")], r.randint(1, 3))
+    how = r.choice(["attribute", "item"])
+    try:
+        for comp, sym in edits:
+            if how == "attribute":
+                setattr(victim.units_system, comp, sym)
+            else:
+                victim.units_system[comp] = sym
+    except Exception as e:
+        return {"bad": [], "counts": {"default_isolation_edit_refused": 1}, "key": None}
+    later = build()
+    counts["default_isolation_checks"] = 1
+    counts["default_isolation:" + which] = 1
+    for name, obj in (("an object built BEFORE", first), ("an object built AFTERWARDS", later)):
+        got = meaning(obj)
+        for k_, w_ in want.items():
+            g_ = got[k_]
+            same = (g_ == w_) if not isinstance(w_, float) else abs(g_ - w_) <= 1e-12 * abs(w_)
+            if not same:
+                bad.append({"what": "editing one object's units system in place changed %s with default units" % name, "class": which,
+                            "field": k_, "got": g_, "expected": w_, "edits": edits, "how": how, "case": {"seed": sd, "idx": idx}})
+                break
+    # the environment list default of networks
+    if which == "network":
+        n1 = build()
+        try:
+            n1.environments.append("extra")
+        except Exception:
+            pass
+        n2 = build()
+        if list(n2.environments) != [""]:
+            bad.append({"what": "a network built with the default environment list does not have the default list any more", "got": list(n2.environments),
+                        "case": {"seed": sd, "idx": idx}})
+    return {"bad": bad[:3], "counts": counts, "key": chash(["default-isolation", which, eq, edits, how]), "nontrivial": True,
+            "sample": {"seed": sd, "idx": idx, "class": which, "edits": edits, "how": how}}
